@@ -305,7 +305,7 @@ func (r *Run) Violation(key, what string, witness any) {
 		return
 	}
 	r.violKeys[key]++
-	if r.violKeys[key] > 3 || len(r.viol) >= 40 {
+	if r.violKeys[key] > 2 || len(r.viol) >= 150 {
 		return // keep at most 3 witnesses per key, 40 per run
 	}
 	r.viol = append(r.viol, violation{Key: key, What: what, Witness: witness})
